@@ -82,11 +82,20 @@ func parseElems(tok string) ([]entities.InfoElementWithValue, error) {
 }
 
 func addByPath(set entities.Set, path string, extra int, tid uint16, elems []entities.InfoElementWithValue) error {
+	// AddRecord and AddRecordWithExtraElements COPY the caller's slice ("the slice can be reused by the caller"); only
+	// AddRecordV2 adopts it. The harness behaves like a caller that reuses its slice: once the copying calls have
+	// returned, every entry of the slice is overwritten with the first one.
+	reuse := func(err error) error {
+		for i := range elems {
+			elems[i] = elems[0]
+		}
+		return err
+	}
 	switch path {
 	case "0":
-		return set.AddRecord(elems, tid)
+		return reuse(set.AddRecord(elems, tid))
 	case "1":
-		return set.AddRecordWithExtraElements(elems, extra, tid)
+		return reuse(set.AddRecordWithExtraElements(elems, extra, tid))
 	case "2":
 		return set.AddRecordV2(elems, tid)
 	}
